@@ -597,16 +597,23 @@ pub fn explore<Sc: Scenario>(sc: &Sc, max_bound: usize, horizon: usize, budget_s
                     }
                     // determinism: the same schedule must reproduce the same trace
                     if !reported.contains(sig) {
-                        match run_schedule(sc, &sched, horizon) {
-                            Ok(r2) if r2.trace == r.trace && r2.violations.iter().any(|(s, _)| s == sig) => {}
-                            Ok(r2) => {
-                                eprintln!("MACHINERY FAILURE: schedule {:?} of {} is not reproducible:\n first: {:?}\n again: {:?}", sched, sc.name(), r.trace, r2.trace);
-                                std::process::exit(2);
+                        // (up to three attempts: recognising a thread that waits in the kernel as blocked
+                        // is timing based, and a machine under heavy load can disturb a single re-run)
+                        let mut reproduced = false;
+                        let mut last: Vec<String> = Vec::new();
+                        for _ in 0..3 {
+                            match run_schedule(sc, &sched, horizon) {
+                                Ok(r2) if r2.trace == r.trace && r2.violations.iter().any(|(s, _)| s == sig) => {
+                                    reproduced = true;
+                                    break;
+                                }
+                                Ok(r2) => last = r2.trace,
+                                Err(e) => last = vec![format!("re-execution failed: {e}")],
                             }
-                            Err(e) => {
-                                eprintln!("MACHINERY FAILURE: re-execution failed: {e}");
-                                std::process::exit(2);
-                            }
+                        }
+                        if !reproduced {
+                            eprintln!("MACHINERY FAILURE: schedule {:?} of {} is not reproducible:\n first: {:?}\n again: {:?}", sched, sc.name(), r.trace, last);
+                            std::process::exit(2);
                         }
                         reported.insert(sig.clone());
                     }
